@@ -168,3 +168,5 @@ type derivedFile struct {
 	sha     string
 	changed bool
 }
+
+func osEnviron() []string { return os.Environ() }
